@@ -195,6 +195,75 @@ pub fn plan(prop: &str, tier: Tier, cfg_b: bool) -> Option<Plan> {
     })
 }
 
+pub const HUGE_RUNS_PER_GRAPH: usize = 8;
+
+/// Run spec number `rep` for a huge graph: deterministic and cheap (every user future completes at
+/// once); the entry point, the limit and the failure pattern cycle with `rep`, so that a handful
+/// of runs on one graph covers the combinations: small limits pile the ready functions up behind
+/// the scheduler; failures: none / every function (more errors in one call than any fixed-size
+/// buffer) / the first function started.
+fn huge_run_spec(prop: &str, plan: &Plan, cfg_b: bool, rng: &mut Rng, gs: &GraphSpec, rep: usize) -> RunSpec {
+    let n = gs.n;
+    let mut rp = plan.rprof.clone();
+    if prop == "C07" {
+        rp.apis.retain(|a| a.is_try() && a.is_concurrent_call());
+        if rp.apis.is_empty() {
+            rp = plan.rprof.clone();
+        }
+    }
+    let api = rp.apis[rep % rp.apis.len()];
+    rp.apis = vec![api];
+    let mut rs = gen::random_run(rng, n, &rp, cfg_b);
+    rs.modes = vec![Mode::Ready; n];
+    rs.batch = true;
+    rs.spurious = 0;
+    rs.greedy = rs.api.is_stream() && rng.chance(2, 3);
+    if rs.api.is_stream() {
+        rs.modes = vec![Mode::Held; n];
+    }
+    if rs.api.is_concurrent_call() {
+        rs.limit = [Some(1), None, Some(8)][(rep / 2) % 3];
+    }
+    if rs.api.is_try() {
+        // C07 is about the errors (every function fails most of the time), C09 about the outcome
+        // after an early end (the first function fails most of the time)
+        let pickf = match prop {
+            "C07" => [1, 2, 1, 0][rep % 4],
+            "C09" => [2, 1, 2, 0][rep % 4],
+            _ => [0, 1, 2, 0][rep % 4],
+        };
+        match pickf {
+            0 => rs.fail.clear(),
+            1 => {
+                // as many failures in one call as possible: run in the direction in which the
+                // star's many functions are not behind a single one
+                let out_star = !gs.calls.is_empty() && gs.calls.iter().all(|c| c.0 == gs.calls[0].0);
+                let in_star = !gs.calls.is_empty() && gs.calls.iter().all(|c| c.1 == gs.calls[0].1);
+                if rs.api.has_opts() {
+                    if out_star {
+                        rs.reverse = true;
+                    } else if in_star {
+                        rs.reverse = false;
+                    }
+                }
+                let hub: Option<u32> = if out_star && !rs.reverse {
+                    Some(gs.calls[0].0)
+                } else if in_star && rs.reverse {
+                    Some(gs.calls[0].1)
+                } else {
+                    None
+                };
+                rs.fail = (0..n as u32).filter(|f| Some(*f) != hub).collect();
+            }
+            _ => {
+                let preds = sub_preds_roots(gs, rs.reverse);
+                rs.fail = preds.into_iter().take(1).collect();
+            }
+        }
+    }
+    rs.normalise(cfg_b)
+}
+
 /// Functions of the user graph without predecessors (forward) / successors (reverse): a superset
 /// of the functions a run can start with.
 fn sub_preds_roots(gs: &GraphSpec, reverse: bool) -> Vec<u32> {
@@ -524,7 +593,9 @@ fn c10_limit_blocks(st: &mut Stats, sub: &mut Subject, rs: &RunSpec, tape: &Tape
     if !rs.api.is_concurrent_call() || !matches!(rs.limit, Some(l) if l >= 1) {
         return;
     }
-    if !matches!(t.term, Term::Deadlock | Term::Livelock | Term::LostWake(_)) || oracles::root_dropped(t) {
+    // a panic counts as well (e.g. a limit value used where it cannot be): the differential below
+    // makes sure it is the LIMIT that keeps the run from completing
+    if !matches!(t.term, Term::Deadlock | Term::Livelock | Term::LostWake(_) | Term::Panicked(_)) || oracles::root_dropped(t) {
         return;
     }
     let mut unl = rs.clone();
@@ -541,7 +612,7 @@ fn c10_limit_blocks(st: &mut Stats, sub: &mut Subject, rs: &RunSpec, tape: &Tape
     let v = Violation {
         prop: "C10",
         kind: "limit-blocks-completion",
-        detail: format!("limit {:?}: the run never returns ({:?}) although the same run without a limit returns under 3 schedules", rs.limit, t.term),
+        detail: format!("limit {:?}: the run does not complete ({:?}) although the same run without a limit returns under 3 schedules", rs.limit, t.term),
     };
     let case = format!("g={}|r={}|t={}", sub.gs.encode(), rs.encode(), tape.encode());
     st.violation(&v, case, crate::exec::log_str(&t.log, 200));
@@ -709,58 +780,8 @@ pub fn run(opts: &Opts, cfg_b: bool) -> Option<Stats> {
             rs.batch = true;
             rs.spurious = 0;
             rs.greedy = rs.api.is_stream() && rng.chance(2, 3);
-            if huge && prop == "C07" && !(rs.api.is_try() && rs.api.is_concurrent_call()) {
-                let mut rp = plan_ref.rprof.clone();
-                rp.apis.retain(|a| a.is_try() && a.is_concurrent_call());
-                if !rp.apis.is_empty() {
-                    rs = gen::random_run(&mut rng, n, &rp, cfg_b);
-                }
-            }
             if huge {
-                // deterministic and cheap: everything completes at once; small limits pile the
-                // ready functions up behind the scheduler; failures: none / every function (more
-                // errors in one call than any fixed-size buffer) / the first function started
-                rs.modes = vec![Mode::Ready; n];
-                if rs.api.is_concurrent_call() {
-                    rs.limit = *rng.pick(&[Some(1), None, Some(8)]);
-                }
-                if rs.api.is_try() {
-                    // C07 is about the errors (every function fails two times in three), C09 about
-                    // the outcome after an early end (the first function fails two times in three)
-                    let pickf = match prop {
-                        "C07" => [1, 1, 2, 0][rng.below(4)],
-                        "C09" => [2, 2, 1, 0][rng.below(4)],
-                        _ => rng.below(3),
-                    };
-                    match pickf {
-                        0 => rs.fail.clear(),
-                        1 => {
-                            // as many failures in one call as possible: run in the direction
-                            // in which the star's many functions are not behind a single one
-                            let out_star = !gs.calls.is_empty() && gs.calls.iter().all(|c| c.0 == gs.calls[0].0);
-                            let in_star = !gs.calls.is_empty() && gs.calls.iter().all(|c| c.1 == gs.calls[0].1);
-                            if rs.api.has_opts() {
-                                if out_star {
-                                    rs.reverse = true;
-                                } else if in_star {
-                                    rs.reverse = false;
-                                }
-                            }
-                            let hub: Option<u32> = if out_star && !rs.reverse {
-                                Some(gs.calls[0].0)
-                            } else if in_star && rs.reverse {
-                                Some(gs.calls[0].1)
-                            } else {
-                                None
-                            };
-                            rs.fail = (0..n as u32).filter(|f| Some(*f) != hub).collect();
-                        }
-                        _ => {
-                            let preds = sub_preds_roots(&gs, rs.reverse);
-                            rs.fail = preds.into_iter().take(1).collect();
-                        }
-                    }
-                }
+                rs = huge_run_spec(prop, plan_ref, cfg_b, &mut rng, &gs, i as usize);
             } else if rs.fail.len() > 3 && !rng.chance(1, 3) {
                 rs.fail.truncate(3);
             }
@@ -783,6 +804,23 @@ pub fn run(opts: &Opts, cfg_b: bool) -> Option<Stats> {
         observe(prop, st, &sub, &rs, &t);
         if prop == "C10" {
             c10_limit_blocks(st, &mut sub, &rs, &tape, &t, mix(seed, i));
+        }
+        if huge {
+            // building a huge graph costs seconds, running it milliseconds: several more runs on
+            // the same graph value, cycling through the plan's entry points, limits and failure
+            // patterns (a graph can be run any number of times, C15)
+            for rep in 1..HUGE_RUNS_PER_GRAPH {
+                let gs2 = sub.gs.clone();
+                let rs2 = huge_run_spec(prop, plan_ref, cfg_b, &mut rng, &gs2, i as usize + rep);
+                set_what(slot, &gs2, &rs2);
+                let mut tape2 = Tape::random(mix(seed ^ 0x5eed, i + rep as u64));
+                let t2 = exec_case(st, &mut sub, &rs2, &mut tape2, check, slot);
+                if std::env::var("FGV_HUGE_DEBUG").is_ok() {
+                    eprintln!("HUGE+ n={} api={:?} rev={} limit={:?} fail={} intr={:?} term={:?} events={}", n, rs2.api, rs2.reverse, rs2.limit, rs2.fail.len(), rs2.intr, t2.term, t2.log.len());
+                }
+                observe(prop, st, &sub, &rs2, &t2);
+                st.count("huge_graph_runs");
+            }
         }
         if st.samples.len() < MAX_SAMPLES / 2 && n >= 3 && n <= 8 && t.log.len() > 10 && i % 97 == 0 {
             st.samples.push(sample_json(&sub, &rs, &tape, &t));
@@ -901,6 +939,82 @@ pub fn run(opts: &Opts, cfg_b: bool) -> Option<Stats> {
             }
         });
         total.merge(rc);
+    }
+    // ---- phase 4b (C04, C08; configuration B): signal-position sweep inside a tokio runtime ----
+    // tokio's cooperative budget (128 operations per task poll) turns an await that "never waits"
+    // into a Pending at one particular position of a wide run; an interrupt noticed exactly there
+    // meets internal state (locks held across the await) that no other schedule produces. The
+    // position cannot be aimed at, but it can be swept: n independent functions that complete at
+    // once, the signal sent from inside the k-th function, for EVERY k.
+    if (prop == "C04" || prop == "C08") && cfg_b {
+        let q = opts.tier == Tier::Quick;
+        let sizes: &[usize] = if q { &[60, 200] } else { &[30, 60, 140, 200, 300] };
+        let mut items: Vec<(usize, Api, Intr, bool, bool)> = Vec::new();
+        for &n in sizes {
+            for api in [Api::ForEachWith, Api::ForEachMutWith, Api::TryForEachWith, Api::TryForEachMutWith, Api::ControlWith, Api::ControlMutWith] {
+                for intr in [Intr::FinishCurrent, Intr::PollNextN(1)] {
+                    for include in [true, false] {
+                        for at_start in [false, true] {
+                            if q && (at_start || (include && intr != Intr::FinishCurrent && n != 200)) {
+                                continue;
+                            }
+                            items.push((n, api, intr, include, at_start));
+                        }
+                    }
+                }
+            }
+        }
+        let items_ref = &items;
+        let sw = par_for(opts.jobs, items.len() as u64, 1, Some(deadline), |st: &mut Stats, i: u64, slot: &Slot| {
+            let (n, api, intr, include, at_start) = items_ref[i as usize];
+            let gs = GraphSpec::new(n);
+            let Ok(mut sub) = Subject::new(gs) else { return };
+            for k in 0..n as u32 {
+                let mut rs = RunSpec::plain(api, n, if k % 2 == 0 { Mode::Ready } else { Mode::SelfWake(1) });
+                rs.intr = intr;
+                rs.include = include;
+                rs.signal = if at_start { SignalPlan::AtStart(k) } else { SignalPlan::AtEnd(k) };
+                rs.limit = [None, Some(3), Some(0)][(k % 3) as usize];
+                let rs = rs.normalise(cfg_b);
+                set_what(slot, &sub.gs, &rs);
+                let t = crate::threads::runtime_case(&mut sub.g, &rs);
+                st.evaluations += 1;
+                st.count("tokio_runtime.signal_position_sweep_runs");
+                st.add("events", t.log.len() as u64);
+                let c = Ctx { gs: &sub.gs, ug: &sub.ug, built: &sub.built, rs: &rs };
+                let mut out = Vec::new();
+                if prop == "C04" {
+                    check(&c, &t, &mut out);
+                } else {
+                    // C08: the numeric bounds are NOT asserted here - a signal sent from inside a
+                    // function of a concurrent call is bounded only from the next quiescent point
+                    // (section 4, C08), and the runtime trace has none. What is decided is the
+                    // clause "functions already started are completed ... and the call returns".
+                    match &t.term {
+                        Term::Deadlock => out.push(Violation { prop: "C08", kind: "interrupted-call-never-returned", detail: "the interrupted call stayed pending with every started user future completed and no wake-up".into() }),
+                        Term::Returned => {
+                            if let Some(o) = t.result.as_ref().and_then(|r| r.outcome.as_ref()) {
+                                for e in &t.log {
+                                    if let Ev::Start(f) = e {
+                                        if !o.processed.contains(f) {
+                                            out.push(Violation { prop: "C08", kind: "started-not-reported-processed", detail: format!("function {f} was started but is missing from fn_ids_processed") });
+                                            break;
+                                        }
+                                    }
+                                }
+                            }
+                        }
+                        _ => {}
+                    }
+                }
+                for v in out.iter().filter(|v| v.prop == prop).take(1) {
+                    let mut v2 = v.clone();
+                    v2.detail = format!("[tokio current-thread runtime, signal sent from inside function {k} of {n} independent functions] {}", v.detail);
+                    st.violation(&v2, format!("g={}|r={}|rt=tokio_current_thread|hold=0", sub.gs.encode(), rs.encode()), crate::exec::log_str(&t.log, 60));
+                }
+            }
+        });
+        total.merge(sw);
     }
     // ---- phase 5 (C08 only): consecutive calls sharing ONE InterruptibilityState via reborrow() ----
     #[cfg(feature = "b")]
